@@ -488,9 +488,13 @@ def _interleave(self, specs, sched):
             res.append(None)
             done.append(False)
 
+        first = {}
+
         def advance(i):
             if done[i]:
                 return
+            if i in moments and i not in first:
+                first[i] = max(0, len(moments[i]) - 1)      # the moment just before this query's first step
             try:
                 st = next(gens[i])
                 if st.done:
@@ -576,7 +580,8 @@ def _interleave(self, specs, sched):
                 guard += 1
                 if moments:
                     snapshot()
-        self.last_moments = moments
+        # a query's execution starts with its first step: only the moments from there on count
+        self.last_moments = dict((k, v[first.get(k, 0):]) for k, v in moments.items())
         out = []
         for sp, r in zip(specs, res):
             if r is REFUSED or isinstance(r, Crash):
